@@ -37,6 +37,22 @@ Definition space : ascii := " "%char.
 Definition dash : ascii := "-"%char.
 Definition backtick : ascii := "`"%char.
 
+Definition lf : ascii := ascii_of_nat 10.
+Definition cr : ascii := ascii_of_nat 13.
+(* headingText: a name stays on the line of its heading / link: CR LF, LF, CR -> one blank *)
+Fixpoint esc_heading (s : string) : string :=
+  match s with
+  | EmptyString => EmptyString
+  | String c r =>
+      if Ascii.eqb c cr then
+        String space match r with
+                     | String c2 r2 => if Ascii.eqb c2 lf then esc_heading r2 else esc_heading r
+                     | EmptyString => EmptyString
+                     end
+      else if Ascii.eqb c lf then String space (esc_heading r)
+      else String c (esc_heading r)
+  end.
+
 (* getHeaderLink: "#" + ReplaceAll(ToLower(name), " ", "-"), then every backtick removed,
    wrapped by md.Link.  (ToLower on ASCII letters; other code points are left alone — the
    harness restricts names to ASCII.) *)
@@ -45,7 +61,7 @@ Definition header_anchor (name : string) : string :=
     ("#" ++ map_string (fun c => if Ascii.eqb c space then dash else c) (map_string lower_ascii name)).
 
 Definition link (text url : string) : string := "[" ++ text ++ "](" ++ url ++ ")".
-Definition header_link (name : string) : string := link name (header_anchor name).
+Definition header_link (name : string) : string := link (esc_heading name) (header_anchor (esc_heading name)).
 Definition bold (s : string) : string := "**" ++ s ++ "**".
 Definition code (s : string) : string := "`" ++ s ++ "`".
 Definition or_dash (s : string) : string := if String.eqb s "" then "-" else s.
@@ -59,8 +75,6 @@ Fixpoint join (sep : string) (l : list string) : string :=
 
 (* escapeTableCell: '|' -> "\|", CR LF / LF / CR -> "<br>" *)
 Definition pipe : ascii := "|"%char.
-Definition lf : ascii := ascii_of_nat 10.
-Definition cr : ascii := ascii_of_nat 13.
 Fixpoint esc_cell (s : string) : string :=
   match s with
   | EmptyString => EmptyString
@@ -274,7 +288,7 @@ Definition dec_hex_line (label : string) (v : Z) : string :=
   label ++ ": " ++ bold (dec v) ++ " (dec), " ++ bold ("0x" ++ hexs v) ++ " (hex)".
 
 Definition msg_blocks (m : msg) : list block :=
-  ([Rule; H 4 (m_name m)]
+  ([Rule; H 4 (esc_heading (m_name m))]
    ++ desc_blocks (m_desc m)
    ++ [Para (dec_hex_line ("CAN-ID " ++ (if m_static m then "(static)" else "(generated)")) (m_canid m)); LF]
    ++ (if m_static m then [] else [Para (dec_hex_line "Message ID" (m_id m)); LF])
@@ -288,13 +302,13 @@ Definition msg_blocks (m : msg) : list block :=
       end)%list.
 
 Definition nif_blocks (x : nif) : list block :=
-  ([Rule; H 3 (n_name x)]
+  ([Rule; H 3 (esc_heading (n_name x))]
    ++ desc_blocks (n_desc x)
    ++ [Para (dec_hex_line "Node ID" (n_id x)); LF]
    ++ flat_map msg_blocks (n_msgs x))%list.
 
 Definition bus_blocks (b : bus) : list block :=
-  ([H 2 (b_name b)]
+  ([H 2 (esc_heading (b_name b))]
    ++ desc_blocks (b_desc b)
    ++ [Para ("Baudrate: " ++ (if b_baud b =? 0 then "-" else bold (dec (b_baud b))) ++ " bps"); LF]
    ++ flat_map nif_blocks (b_nifs b))%list.
@@ -324,7 +338,7 @@ Definition value_row (v : enumval) : list string :=
   [ ev_name v; dec (ev_index v); or_dash (ev_desc v) ].
 
 Definition enum_blocks (e : sigenum) : list block :=
-  ([Rule; H 4 (se_name e)] ++ desc_blocks (se_desc e)
+  ([Rule; H 4 (esc_heading (se_name e))] ++ desc_blocks (se_desc e)
    ++ [mk_table value_header (map value_row (se_values e))])%list.
 
 Definition appendix_blocks (n : net) : list block :=
@@ -338,7 +352,7 @@ Definition appendix_blocks (n : net) : list block :=
 Definition preamble_blocks (n : net) : list block :=
   ([Para "> [!IMPORTANT]  ";
     Para "> This markdown document is generated by [acmelib](https://github.com/squadracorsepolito/acmelib)";
-    LF; H 1 (nt_name n)]
+    LF; H 1 (esc_heading (nt_name n))]
    ++ desc_blocks (nt_desc n))%list.
 
 Definition blocks (n : net) : list block :=
